@@ -1,4 +1,5 @@
 CONSTANT Mode = "pinned"
+CONSTANT MaxDepth = 3
 INIT McInit
 NEXT McNext
 INVARIANT McOk
